@@ -168,12 +168,27 @@ func verifPairs(m *regexp2.Match) []int {
 
 func VerifCheck_compatentry() {
 	n := verifParamInt("n")
-	b := make([]byte, n)
-	for i := range b {
-		if verifParam("mode") == "b" {
-			b[i] = verifByte("b" + strconv.Itoa(i))
-		} else {
-			b[i] = verifByteIn("a"+strconv.Itoa(i), verifParam("alphabet"))
+	var b []byte
+	if ra := verifParam("runealphabet"); ra != "" {
+		// runes of different UTF-8 widths from a small alphabet, each position a solver variable
+		tab := []rune(ra)
+		ix := ""
+		for i := range tab {
+			ix += string(rune(i + 1))
+		}
+		rs := make([]rune, n)
+		for i := range rs {
+			rs[i] = tab[int(verifByteIn("r"+strconv.Itoa(i), ix))-1]
+		}
+		b = []byte(string(rs))
+	} else {
+		b = make([]byte, n)
+		for i := range b {
+			if verifParam("mode") == "b" {
+				b[i] = verifByte("b" + strconv.Itoa(i))
+			} else {
+				b[i] = verifByteIn("a"+strconv.Itoa(i), verifParam("alphabet"))
+			}
 		}
 	}
 	s := string(b)
